@@ -142,6 +142,63 @@ static void graph_case(const G &g) {
   printf("%s\n", o.str().c_str());
 }
 
+
+static void sep_eval(const std::string &kname, const std::vector<B> &a, const std::vector<std::pair<int, int>> &es,
+                     const std::vector<B> &b, const std::vector<std::pair<int, int>> &esb) {
+  auto build = [&](const std::vector<B> &bs, const std::vector<std::pair<int, int>> &ed) {
+    csg::BeadStructure s;
+    for (const B &x : bs) s.AddBead(x);
+    for (auto &e : ed) s.ConnectBeads(bs[e.first].id, bs[e.second].id);
+    return s;
+  };
+  std::ostringstream o;
+  o << "C16 sep " << kname << " " << a.size();
+  for (const B &x : a) o << " " << hexs(x.name) << " " << dexact(x.mass);
+  o << " " << es.size();
+  for (auto &e : es) o << " " << e.first << " " << e.second;
+  o << " " << b.size();
+  for (const B &x : b) o << " " << hexs(x.name) << " " << dexact(x.mass);
+  o << " " << esb.size();
+  for (auto &e : esb) o << " " << e.first << " " << e.second;
+  std::string flag;
+  try { csg::BeadStructure sa = build(a, es), sb = build(b, esb); flag = sa.isStructureEquivalent(sb) ? "1" : "0"; } catch (std::exception &) { flag = "X"; }
+  o << " => " << flag;
+  printf("%s\n", o.str().c_str());
+}
+
+// separation clause: "structures whose multisets of bead names and masses differ are reported as different" — pairs of structures that differ
+// in one name, in one mass (by a relative amount from 1e-2 down to 1e-13), or whose names are chosen so that the separator-free concatenation
+// of the node strings coincides; plus identical copies as controls.  The driver judges the reported flag against the multisets.
+static void sep_case(Rng &r) {
+  static const char *nm[] = {"A", "B", "C", "CH2", "N1"};
+  static const double ms[] = {1.0, 12.0, 15.999, 14.0067, 1.00784};
+  int n = 1 + (int)r.below(5);
+  std::vector<B> a;
+  for (int i = 0; i < n; i++) a.push_back(B{(Index)(i + 1), nm[r.below(5)], ms[r.below(5)]});
+  std::vector<std::pair<int, int>> es;
+  for (int i = 1; i < n; i++) if (!r.coin(1, 4)) es.push_back({(int)r.below(i), i});
+  std::vector<B> b = a;
+  std::vector<std::pair<int, int>> esb = es;
+  int kind = (int)r.below(6);
+  std::string kname;
+  int t = (int)r.below(n);
+  if (kind == 0) { kname = "name"; std::string o = b[t].name; do { b[t].name = nm[r.below(5)]; } while (b[t].name == o); }
+  else if (kind == 1) { int k = 2 + (int)r.below(5); kname = "mass-coarse:1e-" + std::to_string(k); b[t].mass = a[t].mass * (1.0 + std::pow(10.0, -k)); }
+  else if (kind == 2) { int k = 9 + (int)r.below(5); kname = "mass-fine:1e-" + std::to_string(k); b[t].mass = a[t].mass * (1.0 + std::pow(10.0, -k)); }
+  else if (kind == 3) {
+    // two unbonded beads n1 < n2 of one mass against ONE bead whose name is n2 followed by the node string of n1
+    kname = "concat";
+    double m = ms[r.below(5)];
+    int i1 = (int)r.below(4), i2 = i1 + 1 + (int)r.below(4 - i1);
+    std::vector<std::string> sorted = {"A", "B", "C", "CH2", "N1"};
+    a = {B{1, sorted[i1], m}, B{2, sorted[i2], m}}; es.clear();
+    GraphNode gn; std::unordered_map<std::string, double> d; d["Mass"] = m; std::unordered_map<std::string, std::string> sv; sv["Name"] = sorted[i1];
+    gn.setDouble(d); gn.setStr(sv);
+    b = {B{1, sorted[i2] + gn.getStringId(), m}}; esb.clear();
+  } else { kname = "same"; std::reverse(b.begin(), b.end()); for (auto &x : b) x.id += 500; for (auto &e : esb) { e.first = n - 1 - e.first; e.second = n - 1 - e.second; } }
+  sep_eval(kname, a, es, b, esb);
+}
+
 int main(int argc, char **argv) {
   std::string mode = argc > 1 ? argv[1] : "exh";
   long N = argc > 2 ? atol(argv[2]) : 5;
@@ -152,6 +209,14 @@ int main(int argc, char **argv) {
       if (line.empty() || line[0] == '#') continue;
       std::vector<std::string> t = split_ws(line);
       if (t.size() < 4 || t[0] != "C16") continue;
+      if (t[1] == "sep") {
+        size_t q = 3;
+        auto beads = [&](Index base) { std::vector<B> v; int n = atoi(t[q++].c_str()); for (int i = 0; i < n; i++) { std::string nm = unhexs(t[q]); double m = dparse(t[q + 1], t[q + 2]); q += 3; v.push_back(B{base + i + 1, nm, m}); } return v; };
+        auto edges = [&]() { std::vector<std::pair<int, int>> v; int m = atoi(t[q++].c_str()); for (int i = 0; i < m; i++) { v.push_back({atoi(t[q].c_str()), atoi(t[q + 1].c_str())}); q += 2; } return v; };
+        std::vector<B> a = beads(0); auto es = edges(); std::vector<B> b = beads(500); auto esb = edges();
+        sep_eval(t[2], a, es, b, esb);
+        continue;
+      }
       G g; size_t k = 2;
       int n = atoi(t[k++].c_str());
       for (int i = 0; i < n; i++) g.ids.push_back(atol(t[k++].c_str()));
@@ -167,6 +232,7 @@ int main(int argc, char **argv) {
     }
     return 0;
   }
+  if (mode == "sep") { for (long i = 0; i < N; i++) sep_case(r); return 0; }
   if (mode == "exh") {
     // every labelled simple graph on 1..N vertices
     for (int n = 1; n <= N; n++) {
